@@ -33,6 +33,12 @@ Definition items_of (s : sess) (r : route) : list item :=
 Definition plain_family (mc : bool) (n : nlri) : bool :=
   (n_afi n =? 1) && ((n_safi n =? 1) || (mc && (n_safi n =? 2))).
 
+(* MPNLRICollection._encode_nexthop, the address part.  v4m = false : the bytes of the next hop as they are (the
+   IPv4 next hop of an IPv6-family route goes out as 4 octets);  v4m = true : the tree that sends it
+   IPv4-mapped (::ffff:a.b.c.d).  harness/c01.py probes which of the two the code does (fail closed). *)
+Definition nh_wire (v4m : bool) (afi : Z) (nh : list Z) : list Z :=
+  if v4m && (afi =? 2) && (length nh =? 4)%nat then [0;0;0;0;0;0;0;0;0;0;255;255] ++ nh else nh.
+
 Definition prefix16 (b : list Z) : list Z := be16 (zlen b) ++ b.
 
 (* MPNLRICollection._attribute_header: flag OPTIONAL, extended above 255 *)
@@ -43,7 +49,7 @@ Definition mp_attr_len (len : Z) : Z := len + (if 255 <? len then 4 else 3).
 Definition send_pid (s : sess) (n : nlri) : bool := s_ap s (n_afi n) (n_safi n).
 
 (* messages() with announces = [RoutedNLRI(nlri, nexthop)], withdraws = [] *)
-Definition encode_announce (mc : bool) (s : sess) (r : route) : option (list Z) :=
+Definition encode_announce (mc v4m : bool) (s : sess) (r : route) : option (list Z) :=
   let n := r_nlri r in
   let nh := resolve s (n_afi n) (r_nh r) in
   let attr := pack_attrs s true (items_of s r) in
@@ -53,8 +59,9 @@ Definition encode_announce (mc : bool) (s : sess) (r : route) : option (list Z) 
   if plain_family mc n && (length nh =? 4)%nat then
     if zlen packed <=? room then Some (prefix16 [] ++ prefix16 attr ++ packed) else None
   else
-    let payload := be16 (n_afi n) ++ [n_safi n; rd_size (n_afi n) (n_safi n) + zlen nh]
-                   ++ repeat 0 (Z.to_nat (rd_size (n_afi n) (n_safi n))) ++ nh ++ [0] ++ packed in
+    let nhw := nh_wire v4m (n_afi n) nh in
+    let payload := be16 (n_afi n) ++ [n_safi n; rd_size (n_afi n) (n_safi n) + zlen nhw]
+                   ++ repeat 0 (Z.to_nat (rd_size (n_afi n) (n_safi n))) ++ nhw ++ [0] ++ packed in
     if room <? mp_attr_len (zlen payload) then None
     else Some (prefix16 [] ++ prefix16 (attr ++ mp_header 14 (zlen payload) ++ payload)).
 
